@@ -17,6 +17,8 @@ import (
 	lockertypes "github.com/comdex-official/comdex/x/locker/types"
 	markettypes "github.com/comdex-official/comdex/x/market/types"
 
+	abci "github.com/cometbft/cometbft/abci/types"
+
 	chain "github.com/comdex-official/comdex/app"
 
 	"vh/sim"
@@ -44,13 +46,83 @@ type Workload struct {
 
 // TxRes is the recorded result of one step (C16: same blocks => same results).
 type TxRes struct {
-	Kind string `json:"kind"`
-	Tag  string `json:"tag"`
-	OK   bool   `json:"ok"`
-	Code string `json:"code"`
-	Data string `json:"data"` // hash of the response bytes
-	Gas  int64  `json:"gas"`
-	Err  string `json:"err,omitempty"` // diagnostics only (never compared)
+	Kind   string `json:"kind"`
+	Tag    string `json:"tag"`
+	OK     bool   `json:"ok"`
+	Code   string `json:"code"`
+	Data   string `json:"data"` // hash of the response bytes
+	Gas    int64  `json:"gas"`
+	Ev     string `json:"ev"`            // order-sensitive digest of the events the message emitted (type + attributes)
+	NEv    int    `json:"nev"`           // number of events
+	Err    string `json:"err,omitempty"` // diagnostics only (never compared)
+	events []abci.Event
+}
+
+// EventDigest is an order-sensitive hash over type and attributes (key, value, in order) of a list of events.
+func EventDigest(evs []abci.Event) string {
+	if len(evs) == 0 {
+		return ""
+	}
+	h := sha256.New()
+	for _, e := range evs {
+		h.Write([]byte(e.Type))
+		h.Write([]byte{0})
+		for _, a := range e.Attributes {
+			h.Write([]byte(a.Key))
+			h.Write([]byte{1})
+			h.Write([]byte(a.Value))
+			h.Write([]byte{2})
+		}
+		h.Write([]byte{3})
+	}
+	return hex.EncodeToString(h.Sum(nil))[:16]
+}
+
+// deliverMsg = sim.Deliver (ValidateBasic + routed handler on a cache-wrapped context written back only on success),
+// additionally returning the events of the handler's result (baseapp puts them into the tx result on success).
+func deliverMsg(app *chain.App, ctx sdk.Context, msg sdk.Msg) (res sim.Result, events []abci.Event) {
+	if err := msg.ValidateBasic(); err != nil {
+		return sim.Result{OK: false, Code: errCodeOf(err), Err: "validate: " + err.Error()}, nil
+	}
+	h := app.MsgServiceRouter().Handler(msg)
+	if h == nil {
+		return sim.Result{OK: false, Err: "no handler"}, nil
+	}
+	cctx, write := ctx.CacheContext()
+	defer func() {
+		if r := recover(); r != nil {
+			res, events = sim.Result{OK: false, Panic: true, Err: fmt.Sprint(r)}, nil
+		}
+	}()
+	r, err := h(cctx, msg)
+	if err != nil {
+		return sim.Result{OK: false, Code: errCodeOf(err), Err: err.Error()}, nil
+	}
+	write()
+	out := sim.Result{OK: true}
+	if r != nil {
+		out.Data = r.Data
+		events = r.Events
+	}
+	return out, events
+}
+
+func errCodeOf(err error) string {
+	type coder interface {
+		Codespace() string
+		ABCICode() uint32
+	}
+	for e := err; e != nil; {
+		if c, ok := e.(coder); ok {
+			return fmt.Sprintf("%s/%d", c.Codespace(), c.ABCICode())
+		}
+		u, ok := e.(interface{ Unwrap() error })
+		if !ok {
+			break
+		}
+		e = u.Unwrap()
+	}
+	return "unregistered"
 }
 
 func hashBytes(b []byte) string {
@@ -267,8 +339,9 @@ func ExecOn(app *chain.App, ctx sdk.Context, st Step) (res TxRes) {
 			res.Code = "decode"
 			return
 		}
-		r := sim.Deliver(app, ctx.WithGasMeter(gm), m)
+		r, evs := deliverMsg(app, ctx.WithGasMeter(gm), m)
 		res.OK, res.Code, res.Err, res.Data = r.OK, r.Code, r.Err, hashBytes(r.Data)
+		res.Ev, res.NEv, res.events = EventDigest(evs), len(evs), evs
 		if r.Panic {
 			res.Code = "panic"
 		}
